@@ -9,9 +9,13 @@
     prefix and infix call form, each as the mini-session  sentinel ; call ; try call catch ;
     1 + 1  with the sentinel re-read; lazy results forced; fault-injected statements
     (c14stmts.py) the same way.  Observations are compressed per (callee, arity, argument-kind
-    signature, observed outcome tuple), abnormal ones kept individually, and Trace_Outcome
-    rejects every event that is not a behaviour of the automaton; its final check rejects a
-    sweep that skipped a global function, an arity or an argument-kind signature.
+    signature, observed outcome tuple) with counts -- one trace event per (callee, arity) listing
+    its observation classes, abnormal observations (panic / abort / time-out) never merged -- and
+    Trace_Outcome rejects every class that is not a behaviour of the automaton, every (callee,
+    arity) that does not cover all argument-kind signatures, and at the end of the trace a
+    sweep that skipped a global function of the interpreter's table or an arity.
+Finding keys: "<builtin>/<arity>:<argument kinds>:<panic message normalised | timeout | abort>",
+"...:forced-<how>:..." when the failure surfaces on forcing a lazy result, "stmt:<template>:...".
 """
 import itertools
 import json
@@ -68,12 +72,14 @@ def call_items(funcs, tier):
     return items
 
 
-def force_items(items, results):
+def force_items(items, results, lazy_anyway=()):
+    """forcing of lazy results.  lazy_anyway: indices of calls whose result could not even be
+    projected (the projection iterates a stream) although the call itself returns a stream."""
     out = []
-    for it, res in zip(items, results):
+    for idx, (it, res) in enumerate(zip(items, results)):
         if it["form"] != "p" or len(res) < 2:
             continue
-        lk = S.lazy_kind(res[1])
+        lk = "stream" if idx in lazy_anyway else S.lazy_kind(res[1])
         if not lk or "sti" in it["sig"] and lk == "stream":
             continue
         for how, tmpl in S.FORCE[lk]:
@@ -81,6 +87,21 @@ def force_items(items, results):
             out.append({"steps": [{"src": src, "obs": ["zq"]}], "group": (it["f"], it["ar"]), "kind": "force",
                         "f": it["f"], "ar": it["ar"], "sig": it["sig"], "labels": it["labels"], "how": how,
                         "src": src, "lazy": lk})
+    return out
+
+
+def unprojectable_streams(items, results, stats):
+    """calls that panicked while their RESULT was being projected: is the result itself a stream?
+    (`type(call)` evaluates the call without iterating its result)"""
+    cand = [i for i, (it, res) in enumerate(zip(items, results))
+            if it["form"] == "p" and len(res) >= 2 and res[1].get("o") == "panic"]
+    probes = [{"steps": [{"src": "type(%s)" % items[i]["src"]}], "group": 0} for i in cand]
+    res = S.run_items(probes, batch_steps=60, stats=stats)
+    out = set()
+    for i, rs in zip(cand, res):
+        st = rs[1] if len(rs) > 1 else {}
+        if st.get("o") == "ok" and st.get("v", {}).get("t") == "func" and st["v"].get("disp", "").startswith("<stream"):
+            out.add(i)
     return out
 
 
@@ -152,7 +173,7 @@ def run(tier):
     stats = {}
     citems = call_items(funcs, tier)
     cres = S.run_items(citems, batch_steps=110, stats=stats, cls_of=lambda it: (it["f"], it["ar"], tuple(it["sig"])))
-    fitems = force_items(citems, cres)
+    fitems = force_items(citems, cres, unprojectable_streams(citems, cres, stats))
     fres = S.run_items(fitems, batch_steps=60, stats=stats, cls_of=lambda it: (it["f"], it["ar"], tuple(it["sig"]), it["how"]))
     sitems = stmt_items(tier)
     sres = S.run_items(sitems, batch_steps=120, stats=stats, prelude=T.PRELUDE, cls_of=lambda it: (it["tid"], tuple(it["sig"])))
